@@ -212,6 +212,7 @@ def check_property(pid, tier, seed, replay_only=None):
     outdir = os.path.join(VERIF, 'build', pid)
     shutil.rmtree(outdir, ignore_errors=True)
     os.makedirs(outdir, exist_ok=True)
+    os.makedirs(outdir + '_half', exist_ok=True)
     undecided = []
     try:
         specs = gen.load_specs()
@@ -312,6 +313,23 @@ def check_property(pid, tier, seed, replay_only=None):
                     else:
                         undecided.append('unit %s: precondition of %s looks vacuous (assert(false) at function head was not refuted)' % (u, em.name))
 
+    # ---------------------------------------------------------------- thorough tier: proof-stability re-run
+    stability = None
+    if tier == 'thorough' and units and not replay_only:
+        # every unit again with HALF the default solver resource limit: a function that only verifies with the full
+        # budget is reported as fragile (never as a violation) so that it can be split before it turns into a false alarm
+        fragile, st_ms = [], 0
+        with concurrent.futures.ThreadPoolExecutor(max_workers=8) as ex:
+            sres = dict(zip(units, ex.map(lambda u: run_unit(u, specs, outdir + '_half', False, 5, 4), units)))
+        for u in units:
+            sr = sres[u]
+            if sr.gen_error or sr.res is None or sr.res.fatal:
+                continue
+            st_ms += sr.res.smt_ms
+            for k, v in sr.res.functions.items():
+                if v['success'] is False:
+                    fragile.append('%s::%s' % (u, k.split('::', 1)[-1]))
+        stability = {'rlimit': 5, 'default_rlimit': 10, 'functions_failing_only_under_half_budget': sorted(set(fragile)), 'solver_time_ms': st_ms}
     # ---------------------------------------------------------------- Kani side-car
     kani_results, kani_violations = [], []
     hs = [h for h in kanimod.load_harness_files() if pid in h.props and not (tier == 'quick' and cfg.get('kani_tier', {}).get(h.name) == 'thorough')]
@@ -426,6 +444,7 @@ def check_property(pid, tier, seed, replay_only=None):
         'vacuity_probes': {'required_to_fail': probe_total, 'failed_as_required': probe_ok},
         'solver_time_ms': solver_ms, 'backend': 'verus %s (z3)' % verus_version,
         'samples': samples[:8] or [{'note': 'no obligations generated'}],
+        'stability_rerun': stability,
         'kani': kani_results,
         'bounded': [k for k in kani_results if k['kind'] == 'bounded'],
         'failed_obligations': [{k: f[k] for k in ('obligation', 'function', 'message', 'clause', 'src')} for f in failures][:20],
